@@ -3,6 +3,9 @@
 package main
 
 import (
+	"os/exec"
+	"os"
+	"encoding/json"
 	"bytes"
 	"context"
 	"crypto/ecdsa"
@@ -843,4 +846,112 @@ func waitFor(cond func() bool) bool {
 		time.Sleep(time.Millisecond)
 	}
 	return false
+}
+
+// several gRPC listeners in one process, as startServers creates them: one
+// without a TLS configuration (proto=grpc) and one with (proto=grpcs). Each
+// listener's calls must reach the backends with the transport that listener
+// is configured for, whichever was created first.
+func TestVerifC16Listeners(t *testing.T) {
+	L := ev.Begin("C16", "c16-listeners", "exploration",
+		"two gRPC proxies built by main.newGrpcProxy in one process, in both creation orders (plain listener first / TLS listener first; the second order in a child process since per-process state would otherwise hide it), a plain (grpc://) and a TLS (grpcs://, tlsskipverify) backend on loopback; unary calls through each listener to each backend. oracle: calls to the plain backend succeed through both listeners, calls to the TLS backend succeed through the listener that has a TLS configuration. non-trivial = every call")
+	order := os.Getenv("VERIF_C16_ORDER")
+	if order == "" {
+		order = "plain-first"
+	}
+	vhook.TimeScale = 200
+	cfg := &config.Config{}
+	cfg.Proxy.Strategy, cfg.Proxy.Matcher, cfg.GlobCacheSize = "rr", "prefix", 10
+	cfg.Proxy.GRPCMaxRxMsgSize, cfg.Proxy.GRPCMaxTxMsgSize = 16<<20, 16<<20
+	cfg.Proxy.GRPCGShutdownTimeout = 20 * time.Millisecond
+	p := metrics.DiscardProvider{}
+	stats := &proxy.GrpcStatsHandler{Connect: p.NewCounter("c"), Request: p.NewHistogram("r"), NoRoute: p.NewCounter("n"), Status: p.NewHistogram("s", "code")}
+	a := newC16Backend("A")
+	b := &c16Backend{name: "B", tls: true}
+	b.start("127.0.0.1:0")
+	host := "grpc.example"
+	tb, err := route.NewTable(bytes.NewBufferString(fmt.Sprintf("route add svcA /grpc.testing.TestService grpc://%s opts \"proto=grpc\"\nroute add svcB %s/grpc.testing.TestService grpcs://%s opts \"proto=grpcs tlsskipverify=true\"\n", a.addr, host, b.addr)))
+	if err != nil {
+		panic(err)
+	}
+	route.SetTable(tb)
+	serve := func(tlscfg *tls.Config) grpc_testing.TestServiceClient {
+		srv := grpc.NewServer(newGrpcProxy(cfg, tlscfg, stats)...)
+		l, err := net.Listen("tcp", "127.0.0.1:0")
+		if err != nil {
+			panic(err)
+		}
+		go srv.Serve(l)
+		cc, err := grpc.NewClient(l.Addr().String(), grpc.WithTransportCredentials(insecure.NewCredentials()))
+		if err != nil {
+			panic(err)
+		}
+		return grpc_testing.NewTestServiceClient(cc)
+	}
+	var plainL, tlsL grpc_testing.TestServiceClient
+	if order == "plain-first" {
+		plainL = serve(nil)
+		tlsL = serve(&tls.Config{})
+	} else {
+		tlsL = serve(&tls.Config{})
+		plainL = serve(nil)
+	}
+	call := func(cl grpc_testing.TestServiceClient, toB bool) codes.Code {
+		for _, be := range []*c16Backend{a, b} {
+			be.mu.Lock()
+			be.script, be.calls = c16Script{replies: [][]byte{{1}}}, nil
+			be.mu.Unlock()
+		}
+		ctx, cancel := context.WithTimeout(context.Background(), 20*time.Second)
+		defer cancel()
+		if toB {
+			ctx = metadata.NewOutgoingContext(ctx, metadata.Pairs("dsthost", host))
+		}
+		_, err := cl.UnaryCall(ctx, &grpc_testing.SimpleRequest{Payload: &grpc_testing.Payload{Body: []byte{1}}})
+		return status.Code(err)
+	}
+	for _, c := range []struct {
+		name string
+		cl   grpc_testing.TestServiceClient
+		toB  bool
+	}{{"plain-listener->plain-backend", plainL, false}, {"tls-listener->plain-backend", tlsL, false}, {"tls-listener->tls-backend", tlsL, true}} {
+		L.Case()
+		L.NontrivialKey(order + c.name)
+		code := call(c.cl, c.toB)
+		d := map[string]interface{}{"listeners_created": order, "call": c.name, "status": code.String()}
+		L.Sample(d)
+		L.Outcome(code.String())
+		if code != codes.OK {
+			L.Violation("call-through-a-listener-not-forwarded-with-that-listeners-transport", d)
+		}
+	}
+	if order == "plain-first" && os.Getenv("VERIF_C16_ORDER") == "" {
+		// the other order needs a fresh process
+		cmd := exec.Command(os.Args[0], "-test.run", "^TestVerifC16Listeners$", "-test.timeout", "120s")
+		cmd.Env = append(c18EnvWithout("VERIF_OUT", "VERIF_C16_ORDER"), "VERIF_C16_ORDER=tls-first", "VERIF_OUT="+os.Getenv("VERIF_OUT")+"/c16-order2")
+		os.MkdirAll(os.Getenv("VERIF_OUT")+"/c16-order2", 0o755)
+		out, err := cmd.CombinedOutput()
+		L.Case()
+		L.NontrivialKey("tls-first")
+		sub, rerr := os.ReadFile(os.Getenv("VERIF_OUT") + "/c16-order2/c16-listeners.json")
+		var child struct {
+			Evaluations int64         `json:"evaluations"`
+			Violations  []interface{} `json:"violations"`
+		}
+		if rerr == nil {
+			rerr = json.Unmarshal(sub, &child)
+		}
+		switch {
+		case err != nil || rerr != nil || child.Evaluations == 0:
+			tail := out
+			if len(tail) > 600 {
+				tail = tail[len(tail)-600:]
+			}
+			panic("VERIF-INFRA: child process for the second creation order failed: " + fmt.Sprint(err, rerr) + "\n" + string(tail))
+		case len(child.Violations) > 0:
+			L.Violation("call-through-a-listener-not-forwarded-with-that-listeners-transport", map[string]interface{}{"listeners_created": "tls-first", "child_violations": child.Violations})
+		}
+		L.AddCases(child.Evaluations)
+	}
+	L.End(true)
 }
